@@ -243,6 +243,14 @@ def run(rep, tier="quick", replay=None, evidence_dir=None):
             continue
         consts = sorted(set(o.get("tyconst") for bb in (bd, bs) for _, _, st in bb.stmts() if st["s"] == "assign" and st["rv"]["r"] == "bin"
                             for o in (st["rv"]["a"], st["rv"]["b"]) if o.get("k") == "const" and o.get("tyconst")))
+        for bb in (bd, bs):
+            for _, _, st in bb.stmts():
+                if st["s"] == "assign" and st["rv"]["r"] == "use" and st["rv"]["o"].get("k") == "const" and st["rv"]["o"].get("tyconst") and st["rv"]["o"]["tyconst"] not in consts:
+                    consts.append(st["rv"]["o"]["tyconst"])
+            for x in range(bb.n):
+                tt = bb.blocks[x]["term"]
+                if tt["t"] == "switch" and tt["discr"].get("k") == "const" and tt["discr"].get("tyconst") and tt["discr"]["tyconst"] not in consts:
+                    consts.append(tt["discr"]["tyconst"])
         hyps = [None]
         if consts:
             hyps = [dict((c, v) for c in consts) for v in (0, 1, 2, 3, 17)]
